@@ -49,7 +49,7 @@ for _a in ALPHABETS.values():
     assert not any(c.isspace() for c in _a) and "+" not in _a
 NUMLIKE = ["2", "10", "007", "3.5", "1e3", "-1", "٣", "0", "1", "9", "1_0", ".5", "12", "६", "-0", "1.", "0x1F"]
 CLASSES = ["letters", "alnum", "punct", "nonascii", "all", "numlike", "mixed"]
-ENVS = ["cyt", "mem", "nuc", "ext", "a", "B2", "π"]
+ENVS = ["cyt", "mem", "nuc", "ext", "a", "B2", "π", "", "2"]      # "" is the stock environment of a network
 
 WS_SEP = ["", "", " ", " ", "  ", "\t", " \t", "\t ", "   "]   # around '+', '->', at the ends
 WS_REQ = [" ", " ", "\t", "  ", " \t", "\t\t "]                   # between a coefficient and its label
@@ -413,6 +413,15 @@ def is_zero_const(v):
 def build(st, how, sto, kf, kr, us, label=None):
     if how == "ctor":
         return st.Reaction(sto, kf=kf, kr=kr, label=label, units_system=us)
+    if how.startswith("dict"):
+        # dictionary form, every key under one of its documented names (chosen by the suffix of `how`), the reaction's own
+        # units system declared under a parent that has another one
+        k_ = int(how[4:])
+        d = {["stoichiometry", "eq", "sto", "equation"][k_ % 4]: sto, ["k+", "kf"][k_ % 2]: kf, ["k-", "kr"][(k_ // 2) % 2]: kr,
+             ["units", "units_system", "units system", "u"][(k_ // 4) % 4]: (us if isinstance(us, dict) else {c_: us[c_] for c_ in ("space", "time", "quantity")})}
+        if label is not None:
+            d[["label", "l"][(k_ // 16) % 2]] = label
+        return st.reaction_from_dict(d, parent_units_system=st.UnitsSystem(space="km", time="h", quantity="kmol"))
     R = st.Reaction(sto, label=label, units_system=us)
     if how == "set_k":
         R.set_k(kf, kr)
@@ -482,8 +491,8 @@ def check_one(st, sd, block, j):
     dimf, dimr = gen.K_DIM(n), gen.K_DIM(m)
     kfd = rand_const(r, envs, rsys)
     krd = rand_const(r, envs, rsys, p_zero=0.3)
-    how = r.choice(["ctor", "ctor", "set_k", "prop"])
-    sto = text if r.random() < 0.6 else [dict(es), dict(ep)]
+    how = r.choice(["ctor", "ctor", "set_k", "prop", "dict%d" % r.randrange(64)])
+    sto = text if (r.random() < 0.6 or how.startswith("dict")) else [dict(es), dict(ep)]
     info["sample"].update({"units_system": rsys, "kf": kfd, "kr": krd})
     cx.base["constants"] = {"units_system": rsys, "kf": kfd, "kr": krd, "how": how,
                             "sto_form": "text" if isinstance(sto, str) else "list"}
